@@ -55,6 +55,21 @@ def points_for(pts, tier, soft_slow, rng):
     return out.astype(np.complex64), dmin
 
 
+_MUTATED = []
+
+
+def _dem(dem, t, nv):
+    """Call the demodulator; record when it modifies the caller's noise-variance tensor."""
+    import torch
+    if nv is None:
+        return dem(t)
+    before = nv.clone() if isinstance(nv, torch.Tensor) else None
+    out = dem(t, noise_var=nv)
+    if before is not None and not torch.equal(before, nv):
+        _MUTATED.append((float(before.reshape(-1)[0]), float(nv.reshape(-1)[0])))
+    return out
+
+
 def demod_points(s, dem, Y, noise_var=None):
     """Y: complex64 (N,) -> per-point outputs (N, b)."""
     import torch
@@ -67,7 +82,7 @@ def demod_points(s, dem, Y, noise_var=None):
         nv = noise_var
         if isinstance(noise_var, np.ndarray):
             nv = torch.from_numpy(noise_var.reshape(-1, 1).astype(np.float32))
-        out = dem(t) if noise_var is None else dem(t, noise_var=nv)
+        out = _dem(dem, t, nv)
         return out.detach().numpy().reshape(len(Y), b)
     if k == "alternating":
         # position 0 uses the unrotated constellation: put each y at position 0 of its own row
@@ -76,13 +91,13 @@ def demod_points(s, dem, Y, noise_var=None):
         nv = noise_var
         if isinstance(noise_var, np.ndarray):
             nv = torch.from_numpy(np.stack([noise_var, noise_var], axis=1).astype(np.float32))
-        out = dem(t) if noise_var is None else dem(t, noise_var=nv)
+        out = _dem(dem, t, nv)
         return out.detach().numpy().reshape(len(Y), 2, b)[:, 0, :]
     t = torch.from_numpy(Y)
     nv = noise_var
     if isinstance(noise_var, np.ndarray):
         nv = torch.from_numpy(noise_var.astype(np.float32))
-    out = dem(t) if noise_var is None else dem(t, noise_var=nv)
+    out = _dem(dem, t, nv)
     return out.detach().numpy().reshape(len(Y), b)
 
 
@@ -92,7 +107,7 @@ def demod_rotated(s, dem, Y, noise_var=None):
     mc.reset(dem)
     seq = np.stack([np.full_like(Y, np.exp(1j * np.pi / 4)), Y], axis=1)
     t = torch.from_numpy(seq)
-    out = dem(t) if noise_var is None else dem(t, noise_var=noise_var)
+    out = _dem(dem, t, noise_var)
     return out.detach().numpy().reshape(len(Y), 2, 2)[:, 1, :]
 
 
@@ -191,6 +206,7 @@ def check_scheme(ctx, s, Y=None, nvs=None):
             cm = float(np.median(consts))
             ctx.check(all(abs(c - cm) <= 2e-3 * abs(cm) for c in consts), "C06.d_noise_scaling", cell, {"scheme": s, "position": pos}, consts, cm,
                       "LLR x noise_var is not independent of noise_var", CHK)
+        del _MUTATED[:]
         # ---- (e) per-symbol noise variance tensor equals per-symbol scalar results
         if pos == 0 and mc.kind(s) != "alternating" and len(llr_by_nv) >= 2:
             keys = sorted(llr_by_nv)[:2]
@@ -204,6 +220,24 @@ def check_scheme(ctx, s, Y=None, nvs=None):
                     i, j = np.argwhere(bad)[0]
                     ctx.fail("C06.e_tensor_noise", cell, {"scheme": s, "y": [complex(Ys[i])], "noise_var": "per-symbol tensor"}, float(llr_t[i, j]), float(exp[i, j]),
                              "per-symbol noise-variance tensor does not give the per-symbol scalar result", CHK)
+        # ---- (f) one noise-variance tensor reused over several calls: same LLRs every time, tensor left as the caller made it
+        if len(llr_by_nv) >= 1:
+            import torch
+            key = sorted(llr_by_nv)[len(llr_by_nv) // 2]
+            nv0 = torch.tensor(float(key), dtype=torch.float32)
+            outs = []
+            for _ in range(3):
+                ok, o = ctx.call(lambda: dm(s, dem, Ys, nv0), "C06.e_tensor_noise_raises", cell, {"scheme": s, "noise_var": "0-dim tensor", "position": pos}, checker=CHK)
+                if ok:
+                    outs.append(o.astype(np.float64))
+            ctx.ev(3)
+            ctx.check(abs(float(nv0) - float(np.float32(key))) == 0 and not _MUTATED, "C06.f_noise_var_unmodified", cell, {"scheme": s, "noise_var": key, "position": pos, "reuse": True},
+                      float(nv0), float(key), "the demodulator modified the caller's noise-variance tensor", CHK)
+            if len(outs) == 3:
+                exp = llr_by_nv[key]
+                same = all(np.allclose(o, exp, rtol=1e-3, atol=1e-4) for o in outs)
+                ctx.check(same, "C06.f_reuse_same_llr", cell, {"scheme": s, "noise_var": key, "position": pos, "reuse": True},
+                          [float(o.reshape(-1)[0]) for o in outs], float(exp.reshape(-1)[0]), "repeated calls with the same 0-dim noise-variance tensor give different LLRs", CHK)
         if len(ctx.samples) < 2:
             ctx.sample({"scheme": s, "position": pos, "n_points": int(len(Yc)), "example_y": [float(Yc[7].real), float(Yc[7].imag)], "constants": consts[:3]})
 
